@@ -101,14 +101,41 @@ func (c *Ctx) namexRun() *nameVerdicts {
 	namexMemo = nv
 	m := newMach(c)
 	m.maxSteps = 3000000
+	var noteMu sync.Mutex
 	note := func(k, bad, undec string) {
+		noteMu.Lock()
+		defer noteMu.Unlock()
 		v := nv.get(k)
 		v.runs++
-		if bad != "" && v.bad == "" {
+		if bad != "" && (v.bad == "" || len(bad) < len(v.bad) || len(bad) == len(v.bad) && bad < v.bad) {
 			v.bad = bad
 		}
 		if undec != "" && v.undec == "" {
 			v.undec = undec
+		}
+	}
+	// the families (6) and (8) run beside the others, each part on a machine of its own
+	var wg sync.WaitGroup
+	for part := 0; part < 2; part++ {
+		part := part
+		wg.Add(1)
+		go func() {
+			defer wg.Done()
+			pm := newMach(c)
+			pm.maxSteps = 3000000
+			c.namexFoldPairs(pm, part, 2, note)
+		}()
+	}
+	for _, kind := range []string{"functions", "variables"} {
+		for _, whose := range []string{"default", "supplied"} {
+			kind, whose := kind, whose
+			wg.Add(1)
+			go func() {
+				defer wg.Done()
+				pm := newMach(c)
+				pm.maxSteps = 3000000
+				c.namexHistories(pm, kind, whose, note)
+			}()
 		}
 	}
 	// ---- (1) discovery in expressions ------------------------------------------------------------
@@ -686,7 +713,555 @@ func (c *Ctx) namexRun() *nameVerdicts {
 			note("resolution", "", "NewExpressionCalculator: "+out.why)
 		}
 	}
+	c.namexEmptyIdentifier(m, note)
+	wg.Wait()
 	return nv
+}
+
+// ---- (6) letters whose case mappings are not one-to-one ------------------------------------------------
+//
+// "With automatic variables on the default collection ends up with exactly one entry per such name compared
+// case-insensitively", and the reported names "cover exactly the identifiers that occur in variable
+// position (names differing only in letter case may be merged)". Which letters differ only in case is the
+// collection's business (it resolves the names); discovery must not be coarser than the collection: for
+// expressions and templates with two identifiers that are equal under one of upper-casing, lower-casing and
+// Unicode case folding and different under another (Kelvin sign / k, Ohm sign / omega, capital sharp s / ß,
+// dotless ı / i, long s / s, İ / i, micro sign / mu, a title-case digraph), plain and double-quoted, in either
+// order: every identifier resolves in the default collection after SetExpression / SetTemplate, no entry of
+// the collection is shadowed by an earlier one, an evaluation does not miss a variable, and a collection
+// built from the reported names resolves every identifier.
+func (c *Ctx) namexFoldPairs(m *mach, part, parts int, note func(k, bad, undec string)) {
+	pairs := [][2]string{
+		{"tk", "tK"}, {"t\u212a", "tk"}, {"t\u212a", "tK"}, {"t\u2126", "t\u03c9"}, {"t\u2126", "t\u03a9"}, {"t\u1e9e", "t\u00df"},
+		{"t\u0131", "ti"}, {"t\u0131", "tI"}, {"t\u017f", "ts"}, {"t\u017f", "tS"}, {"t\u0130", "ti"}, {"t\u00b5", "t\u03bc"}, {"t\u01c5", "t\u01c6"}, {"t\u01c5", "t\u01c4"},
+	}
+	cctor := c.MustFunc(pkgCalc, "", "NewExpressionCalculator")
+	ct := resultType(cctor)
+	pctor := c.MustFunc(pkgParsers, "", "NewExpressionParser")
+	pt := resultType(pctor)
+	vcctor := c.MustFunc("calculator/variables", "", "NewVariableCollection")
+	vct := resultType(vcctor)
+	quote := func(s string) string { return "\"" + s + "\"" }
+	isNil := func(v mv) bool {
+		if _, ok := v.(mNilT); ok {
+			return true
+		}
+		if i, ok := v.(mIface); ok {
+			if _, ok := i.v.(mNilT); ok {
+				return true
+			}
+			if p, ok := i.v.(*mv); ok && p == nil {
+				return true
+			}
+		}
+		p, ok := v.(*mv)
+		return ok && p == nil
+	}
+	for pi, pr := range pairs {
+		if pi%parts != part {
+			continue
+		}
+		for _, order := range [][2]string{{pr[0], pr[1]}, {pr[1], pr[0]}} {
+			for _, quoted := range []int{0, 1, 2} { // none, both, the first only
+				a, b := order[0], order[1]
+				ids := []string{a, b}
+				switch quoted {
+				case 1:
+					a, b = quote(a), quote(b)
+				case 2:
+					a = quote(a)
+				}
+				for _, e := range []string{a + " + " + b, "Max(" + a + ", " + b + ")", a + "[" + b + "] = " + a} {
+					m.steps = 0
+					calc, out := m.Call(cctor)
+					if out.kind != "ok" {
+						note("case-mappings", "", "NewExpressionCalculator: "+out.why)
+						return
+					}
+					r, out := callM(c, m, ct, "SetExpression", calc, e)
+					if out.kind == "panic" {
+						note("case-mappings", fmt.Sprintf("SetExpression(%+q) panics: %s", e, out.why), "")
+						continue
+					}
+					if out.kind != "ok" {
+						note("case-mappings", "", fmt.Sprintf("SetExpression(%+q): %s", e, out.why))
+						continue
+					}
+					if !isNil(r) {
+						// how a letter outside the quotes is tokenized is not this property's business
+						if quoted == 1 {
+							note("case-mappings", "", fmt.Sprintf("SetExpression(%+q) fails with %s", e, errorCode(r)))
+						}
+						continue
+					}
+					noteSample("NAME.model/case-mappings", e)
+					dv, out := callM(c, m, ct, "DefaultVariables", calc)
+					dvi, ok := dv.(mIface)
+					if out.kind != "ok" || !ok {
+						note("case-mappings", "", "DefaultVariables: "+out.why)
+						continue
+					}
+					names, _, why := collectionEntries(c, m, dvi)
+					if why != "" {
+						note("case-mappings", "", why)
+						continue
+					}
+					bad := ""
+					for _, id := range ids {
+						f, o := callM(c, m, dvi.t, "FindByName", dvi.v, id)
+						if o.kind == "ok" && isNil(f) && bad == "" {
+							bad = fmt.Sprintf("automatic variables on, SetExpression(%+q): the default collection holds %+q, in which the identifier %+q does not resolve (FindByName answers nil): one entry per identifier as the collection compares names", e, names, id)
+						}
+					}
+					for i, n := range names {
+						r, o := callM(c, m, dvi.t, "FindIndexByName", dvi.v, n)
+						if gi, _ := r.(int64); o.kind == "ok" && int(gi) != i && bad == "" {
+							bad = fmt.Sprintf("automatic variables on, SetExpression(%+q): the default collection holds %+q; entry %d (%+q) is shadowed by entry %d, which the collection takes for the same name: exactly one entry per name", e, names, i, n, gi)
+						}
+					}
+					if bad == "" {
+						ev, o := callM(c, m, ct, "Evaluate", calc)
+						if tp, ok := ev.(mTuple); ok && o.kind == "ok" && errorCode(tp[1]) == "VAR_NOT_FOUND" {
+							bad = fmt.Sprintf("automatic variables on, SetExpression(%+q), Evaluate: %s (%s); every identifier in variable position has an entry after the expression was set", e, errorCode(tp[1]), errorField(tp[1], "Message"))
+						} else if o.kind == "panic" {
+							bad = fmt.Sprintf("automatic variables on, SetExpression(%+q), Evaluate panics: %s", e, o.why)
+						}
+					}
+					// the names the parser reports, put into a collection of their own, cover every identifier
+					if bad == "" {
+						parser, o0 := m.Call(pctor)
+						pr, o1 := callM(c, m, pt, "ParseString", parser, e)
+						vn, o2 := callM(c, m, pt, "VariableNames", parser)
+						col, o3 := m.Call(vcctor)
+						reported, ok := stringsOfSlice(vn)
+						if o0.kind == "ok" && o1.kind == "ok" && o2.kind == "ok" && o3.kind == "ok" && ok && isNil(pr) {
+							for _, n := range reported {
+								callM(c, m, vct, "Locate", col, n)
+							}
+							for _, id := range ids {
+								f, o := callM(c, m, vct, "FindByName", col, id)
+								if o.kind == "ok" && isNil(f) && bad == "" {
+									bad = fmt.Sprintf("ParseString(%+q) reports the variable names %+q; a variable collection holding exactly these does not resolve the identifier %+q: the reported names must cover every identifier in variable position (merging is allowed only for names the collection takes for one)", e, reported, id)
+								}
+							}
+						} else {
+							note("case-mappings", "", fmt.Sprintf("ParseString(%+q): %s%s%s%s", e, o0.why, o1.why, o2.why, o3.why))
+						}
+					}
+					note("case-mappings", bad, "")
+				}
+			}
+			// templates: every identifier has a default variable the template itself finds
+			tctor := c.MustFunc("mustache", "", "NewMustacheTemplate")
+			tt := resultType(tctor)
+			a, b := order[0], order[1]
+			for _, src := range []string{"{{" + a + "}}{{" + b + "}}", "{{#" + a + "}}{{{" + b + "}}}{{/" + a + "}}", "{{^" + a + "}}x{{/" + a + "}}{{#" + b + "}}y{{/" + b + "}}"} {
+				m.steps = 0
+				tm, out := m.Call(tctor)
+				if out.kind != "ok" {
+					note("case-mappings", "", "NewMustacheTemplate: "+out.why)
+					return
+				}
+				r, out := callM(c, m, tt, "SetTemplate", tm, src)
+				if out.kind == "panic" {
+					note("case-mappings", fmt.Sprintf("SetTemplate(%+q) panics: %s", src, out.why), "")
+					continue
+				}
+				if out.kind != "ok" {
+					note("case-mappings", "", fmt.Sprintf("SetTemplate(%+q): %s", src, out.why))
+					continue
+				}
+				if !isNil(r) {
+					continue // how such a letter is tokenized inside a tag is not this property's business
+				}
+				dv, out := callM(c, m, tt, "DefaultVariables", tm)
+				dm, ok := dv.(*mMap)
+				if out.kind != "ok" || !ok || dm == nil {
+					note("case-mappings", "", "DefaultVariables of a template: "+out.why)
+					continue
+				}
+				var names []string
+				for _, ks := range dm.keys {
+					n, _ := dm.k[ks].(string)
+					names = append(names, n)
+				}
+				sort.Strings(names)
+				bad := ""
+				for _, id := range []string{a, b} {
+					g, o := callM(c, m, tt, "GetVariable", tm, dm, id)
+					if o.kind == "ok" && isNil(g) && bad == "" {
+						bad = fmt.Sprintf("automatic variables on, SetTemplate(%+q): the default variables are %+q, among which the template does not find %+q (GetVariable answers nil): one entry per identifier as the template compares names", src, names, id)
+					}
+				}
+				note("case-mappings", bad, "")
+			}
+		}
+	}
+}
+
+// ---- (7) the empty quoted identifier -------------------------------------------------------------------
+//
+// "" in variable position is an identifier like any other for the parser; whatever the calculator does with
+// it (an entry named "" or none), setting the expression and creating the variables must come back, and
+// every other identifier gets its entry, in order of first occurrence, entries already there being kept.
+func (c *Ctx) namexEmptyIdentifier(m *mach, note func(k, bad, undec string)) {
+	cctor := c.MustFunc(pkgCalc, "", "NewExpressionCalculator")
+	ct := resultType(cctor)
+	vcctor := c.MustFunc("calculator/variables", "", "NewVariableCollection")
+	vct := resultType(vcctor)
+	newVar := c.MustFunc("calculator/variables", "", "NewVariable")
+	vfi := c.MustFunc(pkgVariants, "", "VariantFromInteger")
+	for _, tc := range []struct {
+		expr string
+		want []string
+	}{
+		{`""`, nil}, {`"" + x`, []string{"x"}}, {`x + ""`, []string{"x"}}, {`a * Max(b, "") - A`, []string{"a", "b"}}, {`Max("", b, c)`, []string{"b", "c"}},
+		{`kept + c[""] + "" + 'text'`, []string{"kept", "c"}}, {`""[i]`, []string{"i"}}, {`"" IS NULL`, nil}, {`NOT "" OR z`, []string{"z"}}, {`p IN "" AND q IN ""`, []string{"p", "q"}},
+		{`- "" * y`, []string{"y"}}, {`f("")`, nil}, {`"" = '' AND "" <> u`, []string{"u"}},
+	} {
+		for _, way := range []string{"SetExpression", "CreateVariables", "CreateVariables over [B kept]"} {
+			m.steps = 0
+			calc, out := m.Call(cctor)
+			if out.kind != "ok" {
+				note("empty-identifier", "", "NewExpressionCalculator: "+out.why)
+				return
+			}
+			var col mIface
+			var pre []string
+			where := fmt.Sprintf("automatic variables on, SetExpression(%q)", tc.expr)
+			if way == "SetExpression" {
+				r, out := callM(c, m, ct, "SetExpression", calc, tc.expr)
+				if out.kind == "panic" {
+					note("empty-identifier", where+" panics: "+out.why+"; the identifiers of the expression get no entries", "")
+					continue
+				}
+				if out.kind != "ok" {
+					note("empty-identifier", "", where+": "+out.why)
+					continue
+				}
+				if _, isNil := r.(mNilT); !isNil {
+					continue // refusing the empty identifier with an error is the parser's choice (C02)
+				}
+				dv, out := callM(c, m, ct, "DefaultVariables", calc)
+				dvi, ok := dv.(mIface)
+				if out.kind != "ok" || !ok {
+					note("empty-identifier", "", "DefaultVariables: "+out.why)
+					continue
+				}
+				col = dvi
+			} else {
+				where = fmt.Sprintf("automatic variables off, SetExpression(%q), then %s", tc.expr, way)
+				callM(c, m, ct, "SetAutoVariables", calc, false)
+				r, out := callM(c, m, ct, "SetExpression", calc, tc.expr)
+				if out.kind != "ok" {
+					if out.kind == "panic" {
+						note("empty-identifier", where+": SetExpression panics: "+out.why, "")
+					} else {
+						note("empty-identifier", "", where+": "+out.why)
+					}
+					continue
+				}
+				if _, isNil := r.(mNilT); !isNil {
+					continue
+				}
+				cv, out := m.Call(vcctor)
+				if out.kind != "ok" {
+					note("empty-identifier", "", "NewVariableCollection: "+out.why)
+					continue
+				}
+				col = mIface{t: vct, v: cv}
+				if strings.Contains(way, "over") {
+					pre = []string{"B", "kept"}
+					for i, p := range pre {
+						val, _ := m.Call(vfi, int64(i+5))
+						vr, _ := m.Call(newVar, p, val)
+						callM(c, m, vct, "Add", cv, mIface{t: resultType(newVar), v: vr})
+					}
+				}
+				if _, out := callM(c, m, ct, "CreateVariables", calc, col); out.kind == "panic" {
+					note("empty-identifier", where+" panics: "+out.why+"; the identifiers of the expression get no entries", "")
+					continue
+				} else if out.kind != "ok" {
+					note("empty-identifier", "", where+": "+out.why)
+					continue
+				}
+			}
+			names, _, why := collectionEntries(c, m, col)
+			if why != "" {
+				note("empty-identifier", "", where+": "+why)
+				continue
+			}
+			want := foldUnique(append(append([]string{}, pre...), tc.want...))
+			var got []string
+			empties := 0
+			for _, n := range names {
+				if n == "" {
+					empties++
+					continue
+				}
+				got = append(got, n)
+			}
+			bad := ""
+			if fmt.Sprint(foldUnique(got)) != fmt.Sprint(want) || len(got) != len(want) || empties > 1 {
+				bad = fmt.Sprintf("%s: the collection holds %q; one entry per identifier in variable position, in order of first occurrence after the entries already there, is %q (with or without one for the empty identifier)", where, names, want)
+			}
+			note("empty-identifier", bad, "")
+		}
+	}
+}
+
+// ---- (8) resolution follows the collection as it is now ------------------------------------------------
+//
+// "Variables and functions are resolved case-insensitively with the first one added winning, a missing
+// variable or function is reported as an error naming it, and adding, locating, removing and clearing
+// entries behave as on an ordered list": one calculator, one expression calling fn (reading vr), and every
+// history of three steps over {evaluate, set the expression again in another letter case, add a second
+// entry of the same name, remove the first entry, remove by name, clear} on the default collection and on a
+// collection supplied by the caller; then an evaluation. Every evaluation answers as the list stands at
+// that moment: the value of the first entry of that name, or the error naming the identifier.
+func (c *Ctx) namexHistories(m *mach, kind, whose string, note func(k, bad, undec string)) {
+	cctor := c.MustFunc(pkgCalc, "", "NewExpressionCalculator")
+	ct := resultType(cctor)
+	vcctor := c.MustFunc("calculator/variables", "", "NewVariableCollection")
+	fcctor := c.MustFunc("calculator/functions", "", "NewFunctionCollection")
+	newVar := c.MustFunc("calculator/variables", "", "NewVariable")
+	newFn := c.MustFunc("calculator/functions", "", "NewDelegatedFunction")
+	vfi := c.MustFunc(pkgVariants, "", "VariantFromInteger")
+	vtNames := c.variantTypeNames()
+	// the calculator of the n-th function added answers with the Integer n
+	m.symFunc = func(m *mach, f *mSym, args []mv) (mv, bool) {
+		var n int64
+		if _, err := fmt.Sscanf(f.name, "answers-%d", &n); err != nil {
+			return nil, false
+		}
+		v, out := m.Call(vfi, n)
+		if out.kind != "ok" {
+			return nil, false
+		}
+		return mTuple{v, mNil}, true
+	}
+	defer func() { m.symFunc = nil }()
+	ops := []string{"Evaluate", "SetExpression", "Add", "Remove", "RemoveByName", "Clear"}
+	var seqs [][]string
+	for _, a := range ops {
+		for _, b := range ops {
+			for _, d := range ops {
+				seqs = append(seqs, []string{a, b, d})
+			}
+		}
+	}
+	{
+		key := "resolution-histories-" + kind
+		spell := map[string][2]string{"functions": {"fn(1)", "FN(1)"}, "variables": {"vr", "VR"}}[kind]
+		ident := map[string][2]string{"functions": {"fn", "FN"}, "variables": {"vr", "VR"}}[kind]
+		missing := map[string]string{"functions": "FUNC_NOT_FOUND", "variables": "VAR_NOT_FOUND"}[kind]
+		{
+			for _, seq := range seqs {
+				m.steps = 0
+				calc, out := m.Call(cctor)
+				if out.kind != "ok" {
+					note(key, "", "NewExpressionCalculator: "+out.why)
+					return
+				}
+				if r, out := callM(c, m, ct, "SetExpression", calc, spell[0]); out.kind != "ok" {
+					note(key, "", "SetExpression: "+out.why)
+					continue
+				} else if _, isNil := r.(mNilT); !isNil {
+					note(key, "", "SetExpression fails: "+errorCode(r))
+					continue
+				}
+				cur := 0 // the spelling the expression has now
+				// the collections
+				var vars, funcs mIface
+				dv, o1 := callM(c, m, ct, "DefaultVariables", calc)
+				df, o2 := callM(c, m, ct, "DefaultFunctions", calc)
+				vars, ok1 := dv.(mIface)
+				funcs, ok2 := df.(mIface)
+				if o1.kind != "ok" || o2.kind != "ok" || !ok1 || !ok2 {
+					note(key, "", "default collections: "+o1.why+o2.why)
+					continue
+				}
+				if whose == "supplied" {
+					if kind == "functions" {
+						fc, _ := m.Call(fcctor)
+						funcs = mIface{t: resultType(fcctor), v: fc}
+					} else {
+						vc, _ := m.Call(vcctor)
+						vars = mIface{t: resultType(vcctor), v: vc}
+					}
+				}
+				col := funcs
+				if kind == "variables" {
+					col = vars
+				}
+				// the model: the entries named like the identifier (others - the default functions - stay in front)
+				base, _, why := collectionEntries(c, m, col)
+				if why != "" {
+					note(key, "", why)
+					continue
+				}
+				var model []listEntry
+				front := len(base)
+				for i, n := range base {
+					if strings.EqualFold(n, ident[0]) {
+						// created by SetExpression (automatic variables): a null value
+						model = append(model, listEntry{n, 0})
+						front = i
+					}
+				}
+				nid := 0
+				add := func(name string) bool {
+					nid++
+					var item mv
+					var o mOutcome
+					if kind == "variables" {
+						val, _ := m.Call(vfi, int64(nid))
+						item, o = m.Call(newVar, name, val)
+						if o.kind == "ok" {
+							_, o = callM(c, m, col.t, "Add", col.v, mIface{t: resultType(newVar), v: item})
+						}
+					} else {
+						item, o = m.Call(newFn, name, &mSym{name: fmt.Sprintf("answers-%d", nid), nonNil: true})
+						if o.kind == "ok" {
+							_, o = callM(c, m, col.t, "Add", col.v, mIface{t: resultType(newFn), v: item})
+						}
+					}
+					model = append(model, listEntry{name, nid})
+					return o.kind == "ok"
+				}
+				if len(model) == 0 && !add(ident[0]) {
+					note(key, "", "adding an entry failed")
+					continue
+				}
+				var hist []string
+				evaluate := func() (string, string) { // got, want
+					var r mv
+					var o mOutcome
+					switch {
+					case whose == "default":
+						r, o = callM(c, m, ct, "Evaluate", calc)
+					case kind == "variables":
+						r, o = callM(c, m, ct, "EvaluateUsingVariables", calc, vars)
+					default:
+						r, o = callM(c, m, ct, "EvaluateUsingVariablesAndFunctions", calc, vars, funcs)
+					}
+					want := "the error " + missing + " naming " + ident[cur]
+					if len(model) > 0 {
+						want = fmt.Sprintf("Integer %d", model[0].id)
+						if model[0].id == 0 {
+							want = "Null nil"
+						}
+					}
+					tp, ok := r.(mTuple)
+					switch {
+					case o.kind == "panic":
+						return "a panic: " + o.why, want
+					case o.kind != "ok" || !ok || len(tp) != 2:
+						return "opaque: " + o.why, want
+					}
+					if _, isNil := tp[1].(mNilT); !isNil {
+						got := "the error " + errorCode(tp[1])
+						if strings.Contains(errorField(tp[1], "Message"), ident[cur]) {
+							got += " naming " + ident[cur]
+						} else {
+							got += " with the message " + errorField(tp[1], "Message")
+						}
+						return got, want
+					}
+					t, _ := m.Call(c.MustFunc(pkgVariants, "Variant", "Type"), tp[0])
+					pl, _ := m.Call(c.MustFunc(pkgVariants, "Variant", "AsObject"), tp[0])
+					k, _ := t.(int64)
+					return vtNames[k] + " " + mRender(pl), want
+				}
+				bad, undec := "", ""
+				for step := 0; step <= len(seq) && bad == "" && undec == ""; step++ {
+					op := "Evaluate"
+					if step < len(seq) {
+						op = seq[step]
+					}
+					var o mOutcome
+					o.kind = "ok"
+					switch op {
+					case "Evaluate":
+						hist = append(hist, "Evaluate")
+						got, want := evaluate()
+						if strings.HasPrefix(got, "opaque") {
+							undec = got
+						} else if got != want {
+							bad = fmt.Sprintf("one calculator, expression %q, %s %s collection holding one %s: after %s the evaluation gives %s; the list now holds %s, so the answer is %s", spell[0], whose, kind, ident[0], strings.Join(hist, ", "), got, renderEntries(model), want)
+						}
+						continue
+					case "SetExpression":
+						cur = 1 - cur
+						var r mv
+						r, o = callM(c, m, ct, "SetExpression", calc, spell[cur])
+						if o.kind == "ok" {
+							if _, isNil := r.(mNilT); !isNil {
+								undec = "SetExpression fails: " + errorCode(r)
+							}
+						}
+						hist = append(hist, fmt.Sprintf("SetExpression(%q)", spell[cur]))
+						// automatic variables: an entry for a name the default collection does not hold
+						if kind == "variables" && whose == "default" && len(model) == 0 {
+							model = append(model, listEntry{ident[cur], 0})
+							if l, _ := callM(c, m, col.t, "Length", col.v); l != nil {
+								if n, ok := l.(int64); ok && n > 0 {
+									front = int(n) - 1
+								}
+							}
+						}
+					case "Add":
+						if !add(ident[1]) {
+							undec = "adding an entry failed"
+						}
+						hist = append(hist, fmt.Sprintf("Add(%s#%d)", ident[1], nid))
+					case "Remove":
+						if len(model) == 0 {
+							bad, undec = "", "-"
+							break
+						}
+						_, o = callM(c, m, col.t, "Remove", col.v, int64(front))
+						hist = append(hist, fmt.Sprintf("Remove(%d)", front))
+						model = model[1:]
+					case "RemoveByName":
+						_, o = callM(c, m, col.t, "RemoveByName", col.v, strings.ToUpper(ident[0][:1])+ident[0][1:])
+						hist = append(hist, fmt.Sprintf("RemoveByName(%q)", strings.ToUpper(ident[0][:1])+ident[0][1:]))
+						if len(model) > 0 {
+							model = model[1:]
+						}
+					case "Clear":
+						_, o = callM(c, m, col.t, "Clear", col.v)
+						hist = append(hist, "Clear()")
+						model, front = nil, 0
+					}
+					if o.kind == "panic" {
+						bad = fmt.Sprintf("%s %s collection: %s panics: %s", whose, kind, strings.Join(hist, ", "), o.why)
+					} else if o.kind != "ok" {
+						undec = strings.Join(hist, ", ") + ": " + o.why
+					}
+				}
+				if undec == "-" { // a step that does not apply (removing from an empty list): the history ends there
+					undec = ""
+				}
+				note(key, bad, undec)
+			}
+		}
+	}
+}
+
+func renderEntries(model []listEntry) string {
+	if len(model) == 0 {
+		return "no entry of that name"
+	}
+	var ps []string
+	for _, e := range model {
+		if e.id == 0 {
+			ps = append(ps, e.name+" (null)")
+		} else {
+			ps = append(ps, fmt.Sprintf("%s#%d", e.name, e.id))
+		}
+	}
+	return "[" + strings.Join(ps, " ") + "]"
 }
 
 // collectionEntries lists the names (and variable values) of a collection through Length/Get/Name/Value.
@@ -747,18 +1322,22 @@ func errorField(errv mv, field string) string {
 
 func init() {
 	register(&Rule{ID: "NAME.model", Floor: 7,
-		Doc: "variable discovery in expressions and templates (VariableNames after ParseString), automatic variables (default collections after SetExpression/SetTemplate with entries already present), the collections as ordered lists (every sequence of three of add/remove/remove-by-name/locate/clear/clear-values, FindIndexByName probes after every step) and resolution (first added wins case-insensitively; VAR_NOT_FOUND / FUNC_NOT_FOUND name the missing identifier), evaluated abstractly through the exported API against the list model",
+		Doc: "variable discovery in expressions and templates (VariableNames after ParseString), automatic variables (default collections after SetExpression/SetTemplate with entries already present), the collections as ordered lists (every sequence of three of add/remove/remove-by-name/locate/clear/clear-values, FindIndexByName probes after every step) and resolution (first added wins case-insensitively; VAR_NOT_FOUND / FUNC_NOT_FOUND name the missing identifier; every three-step history of evaluations and collection changes on one calculator), identifiers whose case mappings are not one-to-one and the empty quoted identifier, evaluated abstractly through the exported API against the list model",
 		Run: func(c *Ctx) []*Obligation {
 			o := newObl("NAME.model")
 			nv := c.namexRun()
 			anchors := map[string]string{
-				"discover-expression":  c.Pos(c.MustFunc(pkgParsers, "ExpressionParser", "VariableNames").Pos()),
-				"discover-template":    c.Pos(c.MustFunc("mustache/parsers", "MustacheParser", "VariableNames").Pos()),
-				"auto-variables":       c.Pos(c.MustFunc(pkgCalc, "ExpressionCalculator", "CreateVariables").Pos()),
-				"list-model-variables": c.Pos(c.MustFunc("calculator/variables", "", "NewVariableCollection").Pos()),
-				"list-model-functions": c.Pos(c.MustFunc("calculator/functions", "", "NewFunctionCollection").Pos()),
-				"separate-instances":   c.Pos(c.MustFunc("calculator/variables", "", "NewVariable").Pos()),
-				"resolution":           c.Pos(c.MustFunc(pkgCalc, "ExpressionCalculator", "EvaluateUsingVariablesAndFunctions").Pos()),
+				"discover-expression":            c.Pos(c.MustFunc(pkgParsers, "ExpressionParser", "VariableNames").Pos()),
+				"discover-template":              c.Pos(c.MustFunc("mustache/parsers", "MustacheParser", "VariableNames").Pos()),
+				"auto-variables":                 c.Pos(c.MustFunc(pkgCalc, "ExpressionCalculator", "CreateVariables").Pos()),
+				"list-model-variables":           c.Pos(c.MustFunc("calculator/variables", "", "NewVariableCollection").Pos()),
+				"list-model-functions":           c.Pos(c.MustFunc("calculator/functions", "", "NewFunctionCollection").Pos()),
+				"separate-instances":             c.Pos(c.MustFunc("calculator/variables", "", "NewVariable").Pos()),
+				"resolution":                     c.Pos(c.MustFunc(pkgCalc, "ExpressionCalculator", "EvaluateUsingVariablesAndFunctions").Pos()),
+				"case-mappings":                  c.Pos(c.MustFunc(pkgCalc, "ExpressionCalculator", "SetExpression").Pos()),
+				"empty-identifier":               c.Pos(c.MustFunc(pkgCalc, "ExpressionCalculator", "CreateVariables").Pos()),
+				"resolution-histories-functions": c.Pos(c.MustFunc(pkgCalc, "ExpressionCalculator", "EvaluateUsingVariablesAndFunctions").Pos()),
+				"resolution-histories-variables": c.Pos(c.MustFunc(pkgCalc, "ExpressionCalculator", "EvaluateUsingVariables").Pos()),
 			}
 			var keys []string
 			for k := range anchors {
